@@ -229,7 +229,7 @@ func (f *FieldCopyFromGenerator) genObject() *j.Statement {
 					// obj.Nested = &Nested{} (also for a message without fields: a non-null object is not nil)
 					g.Id(objFieldName).Op("=&").Id(f.i.WithType(f.GoElemTypeIndirect)).Values()
 				}
-				if !m.IsEmpty {
+				if !m.HasNothingToCopy() {
 					// tf := v
 					g.Id("tf").Op(":=").Id("v")
 
@@ -254,7 +254,7 @@ func (f *FieldCopyFromGenerator) genObject() *j.Statement {
 					j.Id(f.Name): j.Id("b"),
 				})
 
-				if !m.IsEmpty {
+				if !m.HasNothingToCopy() {
 					g.Id("obj").Op(":=").Id("b")
 					g.Id("tf").Op(":=").Id("v")
 					m.GenerateFields(g)
@@ -303,7 +303,7 @@ func (f *FieldCopyFromGenerator) genObjectListOrMap() *j.Statement {
 
 			g.If(j.Id("!v.Null && !v.Unknown")).BlockFunc(func(g *j.Group) {
 				// A message without fields has nothing to copy: a non-null element is just allocated
-				if m.IsEmpty {
+				if m.HasNothingToCopy() {
 					if f.IsNullable {
 						g.Id("t").Op("=&").Id(f.i.WithType(f.GoElemTypeIndirect)).Values()
 					}
